@@ -1272,6 +1272,11 @@ func vecLabels(c *Ctx, typ, field string) (int, bool) {
 }
 
 func labelsOfValue(c *Ctx, v ssa.Value, depth int) (int, bool) {
+	return labelsOfValueB(c, v, depth, nil)
+}
+
+// labelsOfValueB: bind maps the parameters of the helper under evaluation to the arguments of the call being evaluated.
+func labelsOfValueB(c *Ctx, v ssa.Value, depth int, bind map[*ssa.Parameter]ssa.Value) (int, bool) {
 	p := c.P
 	if depth > 6 {
 		return 0, false
@@ -1312,9 +1317,9 @@ func labelsOfValue(c *Ctx, v ssa.Value, depth int) (int, bool) {
 		k := -1
 		switch {
 		case strings.HasPrefix(name, "prom.New") && strings.HasSuffix(name, "Vec"):
-			k = sliceLitLen(c, eng.Arg(&call.Call, 1))
+			k = sliceLen(c, eng.Arg(&call.Call, 1), bind, 0)
 		case strings.HasSuffix(name, ").CurryWith"):
-			base, ok := labelsOfValue(c, eng.Receiver(&call.Call), depth+1)
+			base, ok := labelsOfValueB(c, eng.Receiver(&call.Call), depth+1, bind)
 			if !ok {
 				return 0, false
 			}
@@ -1329,8 +1334,14 @@ func labelsOfValue(c *Ctx, v ssa.Value, depth int) (int, bool) {
 			if len(cs) != 1 {
 				return 0, false
 			}
+			nb := map[*ssa.Parameter]ssa.Value{}
+			for i, pa := range cs[0].Params {
+				if i < len(call.Call.Args) {
+					nb[pa] = call.Call.Args[i]
+				}
+			}
 			for _, r := range eng.Returns(cs[0]) {
-				kk, ok := labelsOfValue(c, r.Results[0], depth+1)
+				kk, ok := labelsOfValueB(c, r.Results[0], depth+1, nb)
 				if !ok {
 					return 0, false
 				}
@@ -1359,6 +1370,90 @@ func sliceLitLen(c *Ctx, v ssa.Value) int {
 	}
 	if cst, ok := v.(*ssa.Const); ok && cst.IsNil() {
 		return 0
+	}
+	return -1
+}
+
+// sliceLen: the (constant) length of a slice value built from literals, arrays, make(…, 0, …), append and helpers that
+// combine them; bind gives the arguments of the helper call under evaluation. -1 when it cannot be determined.
+func sliceLen(c *Ctx, v ssa.Value, bind map[*ssa.Parameter]ssa.Value, depth int) int {
+	if depth > 8 || v == nil {
+		return -1
+	}
+	if k := sliceLitLen(c, v); k >= 0 {
+		return k
+	}
+	switch x := v.(type) {
+	case *ssa.Slice:
+		if x.Low != nil || x.High != nil {
+			return -1
+		}
+		t := x.X.Type()
+		if pt, ok := t.Underlying().(*types.Pointer); ok {
+			if arr, ok := pt.Elem().Underlying().(*types.Array); ok {
+				return int(arr.Len())
+			}
+		}
+		return sliceLen(c, x.X, bind, depth+1)
+	case *ssa.MakeSlice:
+		if n, ok := eng.ConstInt(x.Len); ok {
+			return int(n)
+		}
+	case *ssa.ChangeType:
+		return sliceLen(c, x.X, bind, depth+1)
+	case *ssa.Phi:
+		res := -2
+		for _, e := range x.Edges {
+			k := sliceLen(c, e, bind, depth+1)
+			if k < 0 || (res != -2 && res != k) {
+				return -1
+			}
+			res = k
+		}
+		if res >= 0 {
+			return res
+		}
+	case *ssa.Parameter:
+		if a, ok := bind[x]; ok {
+			return sliceLen(c, a, nil, depth+1)
+		}
+	case *ssa.Call:
+		if b, ok := x.Call.Value.(*ssa.Builtin); ok && b.Name() == "append" && len(x.Call.Args) == 2 {
+			a, bb := sliceLen(c, x.Call.Args[0], bind, depth+1), sliceLen(c, x.Call.Args[1], bind, depth+1)
+			if a < 0 || bb < 0 {
+				return -1
+			}
+			return a + bb
+		}
+		cs := repoCallees(c, x)
+		if len(cs) != 1 {
+			return -1
+		}
+		nb := map[*ssa.Parameter]ssa.Value{}
+		for i, pa := range cs[0].Params {
+			if i < len(x.Call.Args) {
+				nb[pa] = x.Call.Args[i]
+			}
+		}
+		// arguments are themselves evaluated in the caller's binding: pre-resolve those that are parameters
+		for pa, a := range nb {
+			if ap, ok := a.(*ssa.Parameter); ok {
+				if outer, ok := bind[ap]; ok {
+					nb[pa] = outer
+				}
+			}
+		}
+		res := -2
+		for _, r := range eng.Returns(cs[0]) {
+			k := sliceLen(c, r.Results[0], nb, depth+1)
+			if k < 0 || (res != -2 && res != k) {
+				return -1
+			}
+			res = k
+		}
+		if res >= 0 {
+			return res
+		}
 	}
 	return -1
 }
